@@ -523,6 +523,47 @@ func init() {
 		return nil
 	}
 
+	// ---- sync.Pool: a per-path LIFO free list (one legal behaviour of the real pool: the item put last
+	// is handed out next; nothing survives from one path to the next) ----
+	poolNew := func(e *Exec, p Ptr) Value {
+		st := (*p.p).(Struct)
+		pt := under(e.w.ssaPk["sync"].Type("Pool").Object().Type()).(*types.Struct)
+		for i := 0; i < pt.NumFields(); i++ {
+			if pt.Field(i).Name() == "New" {
+				return st[i]
+			}
+		}
+		unsupported("sync.Pool layout")
+		return nil
+	}
+	intrinsics["(*sync.Pool).Get"] = func(e *Exec, caller *frame, args []Value) Value {
+		p := args[0].(Ptr)
+		if items := e.path.pools[p.p]; len(items) > 0 {
+			v := items[len(items)-1]
+			e.path.pools[p.p] = items[:len(items)-1]
+			return v
+		}
+		fn := poolNew(e, p)
+		if fn == nil {
+			return Iface{}
+		}
+		if c, ok := fn.(*Closure); ok && c == nil {
+			return Iface{}
+		}
+		return e.call(caller, 0, fn, nil)
+	}
+	intrinsics["(*sync.Pool).Put"] = func(e *Exec, _ *frame, args []Value) Value {
+		p := args[0].(Ptr)
+		if i, ok := args[1].(Iface); ok && i.t == nil {
+			return nil
+		}
+		if e.path.pools == nil {
+			e.path.pools = map[*Value][]Value{}
+		}
+		e.path.pools[p.p] = append(e.path.pools[p.p], args[1])
+		return nil
+	}
+
 	// ---- runtime/debug ----
 	intrinsics["runtime/debug.Stack"] = func(e *Exec, _ *frame, args []Value) Value {
 		s := mkStr("<stack elided by gosym>")
